@@ -7,7 +7,7 @@ from harness.core import hx, unhx
 
 FRAMING_MODELLED = {'TlsRecord', 'TlsHandshakeClientHello', 'TlsHandshakeServerHello', 'TlsHandshakeHelloRetryRequest',
                     'TlsHandshakeCertificate', 'TlsHandshakeServerKeyExchange', 'TlsHandshakeCertificateStatus',
-                    'TlsHandshakeServerHelloDone', 'TlsHandshakeMessageVariant'}
+                    'TlsHandshakeServerHelloDone', 'TlsHandshakeCertificateRequest', 'TlsHandshakeMessageVariant'}
 
 
 class ClsOracle(object):
@@ -146,38 +146,61 @@ def run_cases(run, cases, driver_ok):
 
 def class_property_run(run, driver_ok, want, per_class, n_mut, truncations=0, suffixes=False):
     """Generated objects of every modelled class -> valid encodings (+ optional suffixes), mutations and
-    truncations; correspondence with the model and the implementation-side oracles named in `want`."""
-    cases = []
-    objs = modelled_object_cases(run, per_class)
-    for name, obj in objs:
+    truncations; correspondence with the model and the implementation-side oracles named in `want`.
+    One class at a time (generate, compare, forget), so the thorough tier stays within a few hundred MB."""
+    total = [0]
+    sampled = [0]
+
+    def flush(cases):
+        if not cases:
+            return
+        if sampled[0] < 3:
+            run.sample(cases[0] if sampled[0] != 1 else cases[len(cases) // 2])
+            sampled[0] += 1
+        total[0] += len(cases)
+        run_cases(run, cases, driver_ok)
+
+    for name, gen in all_generators():
         framing = name in FRAMING_MODELLED
-        try:
-            b = bytes(obj.compose())
-        except Exception as exc:  # pylint: disable=broad-except
+        cases = []
+        for _ in range(per_class):
+            try:
+                obj = gen(run.rng)
+            except Exception as exc:  # pylint: disable=broad-except
+                run.count('generator_errors', '{}:{}'.format(name, type(exc).__name__))
+                continue
+            try:
+                b = bytes(obj.compose())
+            except Exception as exc:  # pylint: disable=broad-except
+                if 'C01' in want:
+                    from harness import canon as _canon
+                    run.finding('compose:{}:{}'.format(name, type(exc).__name__),
+                                '{}: compose() of a constructed object raised {} [{}]'.format(
+                                    name, core.err_line(exc), _canon.generic(obj)[:300]),
+                                {'kind': 'obj', 'cls': name, 'repr': _canon.generic(obj)[:2000]})
+                run.count('compose_errors', '{}:{}'.format(name, type(exc).__name__))
+                continue
             if 'C01' in want:
-                from harness import canon as _canon
-                run.finding('compose:{}:{}'.format(name, type(exc).__name__),
-                            '{}: compose() of a constructed object raised {} [{}]'.format(
-                                name, core.err_line(exc), _canon.generic(obj)[:300]),
-                            {'kind': 'obj', 'cls': name, 'repr': _canon.generic(obj)[:2000]})
-            run.count('compose_errors', '{}:{}'.format(name, type(exc).__name__))
-            continue
-        if 'C01' in want:
-            bad, _ = clsops.check_object(obj, suffix=b'\x00\x17' if framing else b'')
-            for prop, key, msg in bad:
-                run.finding(key, msg, {'kind': 'cls', 'cls': name, 'data': hx(b), 'want': list(want), 'framing': framing})
-        variants = [b]
-        if suffixes:
-            variants.append(b + bytes(run.rng.getrandbits(8) for _ in range(run.rng.randrange(1, 9))))
-            variants.append(b + b)
-        variants.extend(mutations(run.rng, b, n_mut))
-        if truncations:
-            variants.extend(all_truncations(b, truncations))
-        for v in variants:
-            cases.append({'kind': 'cls', 'cls': name, 'data': hx(v), 'want': [w for w in want if w != 'C01'],
-                          'framing': framing})
+                bad, _ = clsops.check_object(obj, suffix=b'\x00\x17' if framing else b'')
+                for prop, key, msg in bad:
+                    run.finding(key, msg, {'kind': 'cls', 'cls': name, 'data': hx(b), 'want': list(want), 'framing': framing})
+            variants = [b]
+            if suffixes:
+                variants.append(b + bytes(run.rng.getrandbits(8) for _ in range(run.rng.randrange(1, 9))))
+                variants.append(b + b)
+            variants.extend(mutations(run.rng, b, n_mut))
+            if truncations:
+                variants.extend(all_truncations(b, truncations))
+            for v in variants:
+                cases.append({'kind': 'cls', 'cls': name, 'data': hx(v), 'want': [w for w in want if w != 'C01'],
+                              'framing': framing})
+            if len(cases) >= 4000:
+                flush(cases)
+                cases = []
+        flush(cases)
     for name, gen in all_raw_inputs():
         framing = name in FRAMING_MODELLED
+        cases = []
         for _ in range(per_class):
             try:
                 b = bytes(gen(run.rng))
@@ -192,9 +215,8 @@ def class_property_run(run, driver_ok, want, per_class, n_mut, truncations=0, su
                 variants.extend(all_truncations(b, truncations))
             for v in variants:
                 cases.append({'kind': 'cls', 'cls': name, 'data': hx(v), 'want': list(want), 'framing': framing})
-    if cases:
-        run.sample(cases[0])
-        run.sample(cases[len(cases) // 2])
-        run.sample(cases[-1])
-    run_cases(run, cases, driver_ok)
-    return cases
+            if len(cases) >= 4000:
+                flush(cases)
+                cases = []
+        flush(cases)
+    return total[0]
